@@ -1046,6 +1046,9 @@ def main():
             ck.finish({"evaluations": 1, "distinct_nontrivial": 2, "states": 1, "transitions": 1, "traces_validated_against_impl": 1,
                        "rule": "aborted: the proposal factor of ModeStatistics is inconsistent with its scale matrix (see violation)"})
         _main(ck, pools)
+    except BindingLost as ex:
+        print(f"INCONCLUSIVE property=C03 binding lost: {ex}", flush=True)
+        raise RuntimeError(f"binding lost: {ex}")
     finally:
         for p in pools:
             p.shutdown(wait=True, cancel_futures=True)
@@ -1317,7 +1320,11 @@ def _main(ck, pools):
         (fk, (_, fmat)) = flat
         pi = stationary(fmat)
         c8 = cases[fk[0] - 1]
-        counts, expect, nwalk = simulate_lattice(np, mcmc, rep, c8, fmat, ("hard",), ck.seed + 11, 1000 if quick else 6000, 10)
+        try:
+            counts, expect, nwalk = simulate_lattice(np, mcmc, rep, c8, fmat, ("hard",), ck.seed + 11, 1000 if quick else 6000, 10)
+        except BindingLost as bl_:
+            lost(f"lattice simulation: {bl_}")
+            counts, expect, nwalk = [0] * 8, [1.0] * 8, 8
         quant = {"rule": "intended" if follows == "intended" else "impl", "setting": "flat likelihood, M=8, d=1, hard walls, increment alphabet %s (Kernel.tla case %d)" % (c8["alpha"], fk[0]),
                  "target": "1/8 per cell", "stationary_law_of_spec_P": [str(p) for p in pi], "stationary_float": [round(float(p), 5) for p in pi],
                  "real_RWMRunner_counts_after_10_sweeps_from_uniform": counts, "spec_expected_counts": [round(x, 1) for x in expect],
